@@ -239,6 +239,10 @@ class TerminalVar:
         self.name = name
 
 
+# the map of the device variables, shared by all kinds of sync groups
+device_properties = ArrayMap()
+
+
 class DeviceVar(ArrayGlobalVarDesc):
     """A variable in a device for higher-level use
 
@@ -263,7 +267,7 @@ class DeviceVar(ArrayGlobalVarDesc):
         print(self.my_data)  # should print 7 once the program is running
     """
     def __init__(self, size="I", write=False):
-        super().__init__(FastSyncGroup.properties, size)
+        super().__init__(device_properties, size)
         self.write = write
 
     def __get__(self, instance, owner):
@@ -906,7 +910,7 @@ class ProcessSyncGroup(SyncGroup, SimulatedEBPF):
     or read (but not write) :class:`TerminalVar`\\ s.
     """
 
-    properties = ArrayMap()
+    properties = device_properties
     wkc_errors = properties.globalVar('I')
 
     def __init__(self, ec, devices, **kwargs):
@@ -980,7 +984,7 @@ class FastSyncGroup(SyncGroupBase, XDP):
     """A :class:`SyncGroup` where all devices are EBPF programs"""
     license = "GPL"
 
-    properties = ArrayMap()
+    properties = device_properties
     wkc_errors = properties.globalVar('I')
 
     def __init__(self, ec, devices, **kwargs):
